@@ -258,6 +258,10 @@ def cxx_ssa_native(shape, seed, container="set"):
 
 def replay_file(payload):
     inp = payload["inputs"]
+    if inp.get("wrapped_model"):
+        from checks import C02
+
+        return C02.replay_file(payload)
     if inp.get("tiny_constant"):
         tp, _ = native_tiny_constant(inp.get("seed", 0))
         print("replay C08 (physically tiny constants):", tp[:3] or "every entry agrees relative to its own magnitude, CSE on and off")
